@@ -84,6 +84,10 @@ func FormatCall(c *scen.Call, cfg *scen.ConfigSpec) CallText {
 }
 
 func jsonOpts(cfg *scen.ConfigSpec) *tpretty.Options {
+	if cfg != nil && cfg.JSON2 != nil {
+		// the last option given wins
+		return &tpretty.Options{Width: cfg.JSON2.Width, Indent: cfg.JSON2.Indent, SortKeys: cfg.JSON2.SortKeys}
+	}
 	if cfg != nil && cfg.JSON != nil {
 		return &tpretty.Options{Width: cfg.JSON.Width, Indent: cfg.JSON.Indent, SortKeys: cfg.JSON.SortKeys}
 	}
